@@ -325,7 +325,7 @@ def run(ctx):
               "class x subset of its structured fields (all subsets for <= 4 fields, seeded subsets for PdiffIndex) x record lists "
               "of 1-3 records over whitespace-free tokens; sizes include leading zeros, a non-numeric token and a 19-digit number; "
               "non-trivial = distinct (class, present fields, records)", "%s" % ("quick" if ctx.tier == "quick" else "thorough"))
-    reps = 6 if ctx.tier == "quick" else 60
+    reps = 10 if ctx.tier == "quick" else 60
     for cname, cls, behaviour in configs:
         mv = cls._multivalued_fields
         keys = list(mv)
